@@ -41,6 +41,7 @@ type Ext struct {
 	// that are inlined (an accumulator object with methods) is the bundle of its fields: one cell per field
 	fieldCells map[*Symbol][]*Symbol
 	cellLoopDepth map[*Symbol]int // number of enclosing loops at the allocation of a field cell
+	ifaceTypes    map[string]types.Type // dynamic types behind "iface:<T>" boxes
 }
 
 func NewExt(p *Prog, s *Store, cfg Config) *Ext {
